@@ -171,7 +171,11 @@ func TwistExtrude3D(sdf SDF2, height, twist float64) SDF3 {
 	s.extrude = TwistExtrude(height, twist)
 	// work out the bounding box
 	bb := sdf.BoundingBox()
-	l := bb.Max.Length()
+	// the twisted profile stays within the circle through the farthest box corner
+	l := 0.0
+	for _, v := range bb.Vertices() {
+		l = math.Max(l, v.Length())
+	}
 	s.bb = Box3{v3.Vec{-l, -l, -s.height}, v3.Vec{l, l, s.height}}
 	return &s
 }
@@ -197,8 +201,13 @@ func ScaleTwistExtrude3D(sdf SDF2, height, twist float64, scale v2.Vec) SDF3 {
 	s.extrude = ScaleTwistExtrude(height, twist, scale)
 	// work out the bounding box
 	bb := sdf.BoundingBox()
-	bb = bb.Extend(Box2{bb.Min.Mul(scale), bb.Max.Mul(scale)})
-	l := bb.Max.Length()
+	// the profile is rotated and then scaled by up to max(1, scale) on each axis: it stays
+	// within the circle through the farthest box corner, enlarged by the largest scale
+	l := 0.0
+	for _, v := range bb.Vertices() {
+		l = math.Max(l, v.Length())
+	}
+	l *= math.Max(1, math.Max(scale.X, scale.Y))
 	s.bb = Box3{v3.Vec{-l, -l, -s.height}, v3.Vec{l, l, s.height}}
 	return &s
 }
